@@ -7,6 +7,7 @@ CONSTANT Cancellable <- NoCancel
 CONSTANT CancelAt <- AnyAwait
 CONSTANT MaxStale = 2
 CONSTANT MaySilence = FALSE
+CONSTANT ConfPerTwice = 2
 CONSTANT FlushAfterConfirm = FALSE
 INVARIANT TypeOK
 INVARIANT WriteByOwner
